@@ -157,7 +157,10 @@ struct AnmLayout { game: Game, entries: Vec<AnmEntryL>,
     resolve_last: bool }
 
 #[derive(Debug, Clone, PartialEq)]
-enum IdErr { Cycle, Dangling(String), Ambiguous(String) }
+enum IdErr { Cycle, Dangling(String), Ambiguous(String),
+    /// an untyped use of a name that is a sprite and a script with DIFFERENT numbers: "definitions that would give one name two
+    /// different values ... are reported as errors"
+    TwoValues(String) }
 
 #[derive(Debug, Clone, Copy, PartialEq)]
 enum Ctx { Sprite, Script, Untyped, QualSprite, QualScript }
@@ -305,7 +308,10 @@ impl AnmLayout {
             (Ctx::Sprite, false, Some(p)) => Ok(p as i64),
             (Ctx::Script, _, Some(p)) => Ok(p as i64),
             (Ctx::Script, true, None) => spr(self, stack, memo),
-            (Ctx::Untyped, true, Some(_)) => Err(IdErr::Ambiguous(name.into())),
+            (Ctx::Untyped, true, Some(p)) => match spr(self, stack, memo) {
+                Ok(v) if v != p as i64 => Err(IdErr::TwoValues(name.into())),
+                _ => Err(IdErr::Ambiguous(name.into())),
+            },
             (Ctx::Untyped, true, None) => spr(self, stack, memo),
             (Ctx::Untyped, false, Some(p)) => Ok(p as i64),
         }
@@ -376,6 +382,7 @@ impl AnmLayout {
                 Err(IdErr::Cycle) => errors.push(("cycle", "anm-sprite-id".into())),
                 Err(IdErr::Dangling(_)) => errors.push(("dangling", "anm-sprite-id-expr".into())),
                 Err(IdErr::Ambiguous(_)) => unspec.push("ambiguous-name-in-untyped-context".into()),
+                Err(IdErr::TwoValues(_)) => errors.push(("conflict", "anm-name-is-sprite-and-script-with-different-numbers".into())),
                 Ok(v) if *v < 0 => unspec.push("negative-sprite-id".into()),
                 Ok(_) => {},
             }
@@ -400,6 +407,7 @@ impl AnmLayout {
                 match r {
                     Err(IdErr::Dangling(_)) => errors.push(("dangling", format!("anm-{:?}", u.kind))),
                     Err(IdErr::Ambiguous(_)) => unspec.push("ambiguous-name-in-untyped-context".into()),
+                    Err(IdErr::TwoValues(_)) => errors.push(("conflict", "anm-name-is-sprite-and-script-with-different-numbers".into())),
                     Err(IdErr::Cycle) => errors.push(("cycle", "anm-sprite-id".into())),
                     Ok(_) => {},
                 }
@@ -1099,6 +1107,9 @@ fn plans(thorough: bool) -> Vec<Plan> {
         Plan { label: "anm script shape x script names x explicit numbers (full product) + deviations", fam: "anm",
                games: g(&[("th12", 1, 2), ("th06", 0, 1), ("th17", SKIP, 1)]),
                prof: vec![F_SCRIPTS | F_X2 | F_X1, 3, 2, 3, 3], max_cases: 4_000_000 },
+        Plan { label: "anm names shared between sprites and scripts x use host/kind/target (full product) + deviations in shape / id pattern", fam: "anm",
+               games: g(&[("th12", 2, 3), ("th07", SKIP, 2)]),
+               prof: vec![F_NAMES | F_SCRIPTS | F_USES | F_X1, 2, 2, 2, 2], max_cases: 4_000_000 },
         Plan { label: "anm all choice points, deviation-bounded", fam: "anm",
                games: g(&[("th12", 3, 4), ("th06", SKIP, 3), ("th07", SKIP, 3), ("th08", SKIP, 3), ("th10", SKIP, 3), ("th17", SKIP, 3)]),
                prof: vec![0, 3, 3, 4, 3], max_cases: 4_000_000 },
